@@ -231,6 +231,13 @@ def run_task(task):
     res = TaskResult()
     kind = task["kind"]
     try:
+        if kind == "mega":
+            L = task["L"]
+            for x in (bytes((i * 7 + 3) % 256 for i in range(L)), bytes([0x50, 0x22, 0x7E, 0x41]) * (L // 4) + b"\x50" * (L % 4)):
+                check(c, x, {"hex": f"<{L} patterned bytes>", "mega": L})
+                res.evaluations += 1
+                res.nontrivial(["mega", L, x[:2].hex()])
+            return res
         if kind == "threads":
             xs = [bytes((i * 29 + k) % 256 for i in range(n)) for n in (3, 16, 64, 255, 700, 4100) for k in (0, 0x22, 0x50)]
             jobs = [(c.data.encode_string, x, refcodec.ref_encode_string(x)) for x in xs] + \
@@ -250,11 +257,17 @@ def run_task(task):
                     if g != exp:
                         raise Violation("holds_under_optimized_interpreter", {"hex": job["arg"], "opt": [job["fn"], flag]}, exp, g)
                 res.extra["optimized_interpreter_calls"] = res.extra.get("optimized_interpreter_calls", 0) + len(jobs)
+            # the same calls as the FIRST use of the library in a fresh interpreter, from 8 threads released together
+            for rnd in range(4):
+                got = optrun.run(jobs, "-B", threads=8)
+                _first_use_judge(jobs, got)
+                res.extra["concurrent_first_use_calls"] = res.extra.get("concurrent_first_use_calls", 0) + len(jobs)
             return res
         if kind == "long":
             # long strings (packet sized and beyond): patterned content cycling through every byte value,
             # plain runs, and 0xFF-padded tails of odd and even length
-            for L in (253, 254, 2049, 4096, 64008, 64009, 64010, 70001):
+            for L in (253, 254, 2049, 4096, 64008, 64009, 64010, 70001) + \
+                    ((2 ** 20 - 1, 2 ** 20, 2 ** 20 + 1, 2 ** 21, 2 ** 21 + 1) if task.get("mega") else ()):
                 pats = [bytes((i * 7 + L) % 256 for i in range(L)), bytes([0x50]) * L,
                         bytes((0x22 + i % 0x5D) for i in range(L - 5)) + b"\xff" * 5,
                         bytes((0x7E - i % 0x5D) for i in range(L - 4)) + b"\xff" * 4]
@@ -341,6 +354,8 @@ def run_task(task):
 
 def plan(tier, seed):
     tasks = [{"kind": "vectors"}, {"kind": "long"}, {"kind": "opt"}, {"kind": "threads"}]
+    # megabyte strings, one length per task (the reference table walk costs ~1 s per MiB)
+    tasks += [{"kind": "mega", "L": L} for L in (2 ** 20 - 1, 2 ** 20, 2 ** 20 + 1, 2 ** 21 + 1)]
     maxlen = MAXLEN[tier]
     for L in range(1, 9):
         tasks.append({"kind": "sweep", "len": L})
@@ -370,8 +385,26 @@ def finalize(merged, tier):
     return None
 
 
+def _first_use_judge(jobs, got):
+    for job, g in zip(jobs, got):
+        x = bytes.fromhex(job["arg"])
+        exp = (refcodec.ref_encode_string(x) if job["fn"] == "encode_string" else refcodec.ref_decode_string(x)).hex()
+        if g != exp:
+            raise Violation("independent_of_concurrent_first_use", {"hex": job["arg"], "first_use_jobs": jobs, "fn": job["fn"]}, exp, g)
+
+
 def replay(case):
     c = loader.core()
+    if case.get("first_use_jobs"):
+        from vlib import optrun
+        for _ in range(5):      # the schedule is the operating system's: re-issued a few times
+            _first_use_judge(case["first_use_jobs"], optrun.run(case["first_use_jobs"], "-B", threads=8))
+        return
+    if case.get("mega"):
+        L = case["mega"]
+        for x in (bytes((i * 7 + 3) % 256 for i in range(L)), bytes([0x50, 0x22, 0x7E, 0x41]) * (L // 4) + b"\x50" * (L % 4)):
+            check(c, x, dict(case))
+        return
     if case.get("opt"):
         from vlib import optrun
         fn, flag = case["opt"]
